@@ -234,6 +234,7 @@ def main(run):
             run.other_error(f"C15:{type(ex).__name__}")
             continue
         stored, prev_ret = [], dict(e.importance_values)
+        lead = rnd.randrange(1, il) if il > 1 and rnd.random() < 0.3 else 0      # leading calls that neither store nor are due
         ncalls = rnd.choice([8, 15, 24]) if i % 40 != 7 else 300        # a few long schedules (ordinal counters beyond 256)
         try:
             for c in range(1, ncalls + 1):
@@ -241,6 +242,10 @@ def main(run):
                 y = rnd.randrange(-4, 5)
                 force = rnd.random() < 0.2
                 upd = True if c == 1 else rnd.random() < 0.8
+                if c <= lead:
+                    force, upd = False, False
+                elif not stored:
+                    upd = True
                 # truthy / falsy flags of other types are legal booleans too (numpy comparisons produce np.bool_)
                 force_arg = rnd.choice([force, np.bool_(force), int(force)])
                 upd_arg = rnd.choice([upd, np.bool_(upd), int(upd)])
